@@ -59,6 +59,9 @@ pub struct W4Cfg {
     /// C17: tick offsets of the imposed mid-price path (quotes moved by the harness), and the half-tick flag per step
     pub path: Vec<(i32, bool)>,
     pub centre: u32,
+    /// C17: the harness moves its quotes by re-pricing them (modify instructions) instead of cancel + place
+    #[serde(default)]
+    pub quote_by_modify: bool,
 }
 
 #[derive(Clone, Debug, Serialize, Deserialize, PartialEq)]
@@ -261,6 +264,9 @@ impl World {
     }
     pub fn cancel(&mut self, a: usize, id: usize) {
         with_world!(self, |e| EnvLike::cancel(e.as_mut(), a, id))
+    }
+    pub fn modify(&mut self, a: usize, id: usize, p: Option<u32>, v: Option<u32>) {
+        with_world!(self, |e| EnvLike::modify(e.as_mut(), a, id, p, v))
     }
     pub fn step(&mut self, rng: &mut SeamRng) {
         with_world!(self, |e| EnvLike::step(e.as_mut(), rng))
